@@ -38,7 +38,7 @@ Proof. unfold frame_wf, frame_id; cbn. repeat split; try reflexivity; try (apply
   right. repeat split; try reflexivity. exists [1;2;3;4;5;6]. repeat split. Qed.
 
 (* ---- tie by translation (gen/SrcFrame.v, gen/SrcStreamwriter.v are regenerated from the source on
-   every run) ---- markers, the signed flag, the header offsets of both marshalTo functions, the
+   every run) ---- markers, the signed flag, the
    marshal buffer that must hold the longest frame and the read buffer that must hold the longest UDP datagram; the 24- and 48-bit helpers and IsSigned, translated
    statement by statement, are the model's little-endian codec and flag test *)
 From Coq Require Import ZArith NArith List.
@@ -48,8 +48,6 @@ Theorem C01_source_layout_constants :
   (c_frame_V1MagicByte = 254 /\ c_frame_V2MagicByte = 253 /\ c_frame_V2FlagSigned = 1 /\
    280 <= c_frame_bufferSize /\ 65507 <= c_frame_readBufferSize /\
    c_frame_readBufferSize = a_frame_Reader_Initialize_NewReaderSize /\
-   k_frame_V1Frame_marshalTo = [255; 0; 0; 254; 1; 2; 3; 4; 5; 6; 0; 2] /\
-   k_frame_V2Frame_marshalTo = [0; 253; 1; 2; 3; 4; 5; 6; 7; 10; 0; 2; 6] /\
    d_frame_Writer_Initialize_OutComponentID = 1 /\ d_streamwriter_Writer_Initialize_ComponentID = 1)%Z.
 Proof. exact src_frame_layout. Qed.
 Print Assumptions C01_source_layout_constants.
